@@ -388,13 +388,15 @@ PROPS = {
                            {"test": "^TestC14Sizes$", "shards": 2, "timeout": 600},
                            {"test": "^TestC14Stalled$", "shards": 1, "checks": 40, "timeout": 600},
                            {"test": "^TestC14InfoTransfers$", "shards": 2, "checks": 10, "timeout": 900},
-                           {"test": "^TestC14Live$", "shards": 2, "timeout": 600, "weight": 2}]},
+                           {"test": "^TestC14Live$", "shards": 2, "timeout": 600, "weight": 2},
+                           {"test": "^TestC14LiveStalled$", "shards": 2, "timeout": 600}]},
         "thorough": {"runs": [{"test": "^TestC14$", "shards": 12, "checks": 1200, "timeout": 3400, "group": 0},
                               {"test": "^TestC14Sizes$", "shards": 4, "timeout": 1800, "group": 0},
                               {"test": "^TestC14Stalled$", "shards": 2, "checks": 1500, "timeout": 1800, "group": 0},
                               {"test": "^TestC14InfoTransfers$", "shards": 2, "checks": 600, "timeout": 3000, "group": 0},
                               {"test": "^TestC14Live$", "shards": 1, "timeout": 900, "group": 1, "weight": 16},
-                              {"test": "^TestC14Live$", "shards": 1, "timeout": 900, "group": 2, "weight": 16, "race": True, "env": {"VERIF_LIVE_BUDGET": "120"}}]},
+                              {"test": "^TestC14Live$", "shards": 1, "timeout": 900, "group": 2, "weight": 16, "race": True, "env": {"VERIF_LIVE_BUDGET": "120"}},
+                              {"test": "^TestC14LiveStalled$", "shards": 4, "timeout": 900}]},
     },
     "C19": {
         "title": "Message board and agreement are served whole and lose no post",
@@ -495,7 +497,7 @@ _LATER = {
     "C11": "comments of 33 000 / 60 000 bytes; every fourth listed file is downloaded through to its bytes; TestC11BigSizes: sparse files of 2^24..2^32-1 bytes, list == get-info == download reply == size on disk; TestC11WideFolder: folders of 65 536 / 65 537 / 65 540 visible entries plus hidden ones are listed with their entry count; create-folder requests whose path names a folder that is not there: nothing appears on disk",
     "C12": "restarts (chats are gone afterwards), invitations by non-members, the refuse-private-chat preference (decline notice names the decliner, never addressed to chat 0), names containing %, unknown chat ids other than 0; users take another name in mid-session (with or without the options field) and speak under it; TestC12ManyChats: private chats are opened until the server hands out an id whose low or high half is zero (up to 300 000; non-trivial = found): a line said there reaches the member, with that chat id, and no connected non-member",
     "C13": "set-user edits of an account whose user is connected (disconnect / same / other name), followed by the same presence comparison",
-    "C14": "latecomers who log in while the plan runs (agreements of several sizes), a 300-article news listing, requests naming unknown chats sent by a connection of their own; TestC14Stalled: the stalled clients start reading again after 1 s .. 10 min of fake time and must receive whole transactions only, every queued broadcast at most once; disconnect requests naming user ids nobody has (with and without ban option), sent by the stranger connection; request ids 0, 0xFFFFFFFF and 0x80000000 (each at most once per client)",
+    "C14": "latecomers who log in while the plan runs (agreements of several sizes), a 300-article news listing, requests naming unknown chats sent by a connection of their own; TestC14Stalled: the stalled clients start reading again after 1 s .. 10 min of fake time and must receive whole transactions only, every queued broadcast at most once; disconnect requests naming user ids nobody has (with and without ban option), sent by the stranger connection; request ids 0, 0xFFFFFFFF and 0x80000000 (each at most once per client); TestC14Stalled: now and then 4200 or 6000 chat lines pile up for the stalled clients; TestC14LiveStalled (production pump, real scheduler): one peer stops reading while 4200-9000 chat lines are said: the active clients receive every line and every reply",
     "C15": "passwords of 73 / 100 / 255 bytes (bcrypt's limit is 72), names of 300 / 500 / 2000 bytes, new-user over a file that another login's record occupies; no two accounts may share a stored password hash (also the password-less ones); the administrator edits the name of the account it is logged in with and asks for it: get-user, list-users and the file show the new name; TestC15OperatorFile: the account lives in a file that is not named after its login (six file-name patterns sorting before and after <login>.yaml); 1-4 operations out of edit / password change / rename / delete / restart, and after each the listing, a fresh manager and login attempts with every password must agree with the model; TestC15ManyAccounts: 254-513 accounts exist as files at start-up (plus 0-3 made through the protocol): the listing shows each once, a sample logs in; TestC15OperatorFile also gives the login of a deleted account to a new one",
     "C16": "TestC16Wire: creation of shadow logins (./u, u/., U) next to an existing one, set-user spelled in another case, and the account listing fetched before and after an edit must show the edit; TestC16Authz also runs every cell with each of the 24 bits that name no privilege alone (delivered by set-user): nothing may be granted; TestC05 keeps random undefined bits on the set-user path",
     "C17": "a protected account; kicks aimed at a user who is leaving at that instant; reloads of the ban file racing a ban (the in-memory answer is compared too); TestC17Net (child process, production accept loop): three clients from three loopback addresses, one is kicked with a ban: only its address is refused afterwards, the others reconnect; the ban file cannot be rewritten for a while (its temporary name is taken by a folder): a disconnect-with-ban that is acknowledged must be enforced by the running server; restarts and reloads go by the file; TestC17Main: the repository's main program as a child process with a configuration directory of the operator's choice (created by -init): a guest is disconnected with a temporary or permanent ban; the address is refused and another admitted, before and after a restart (SIGTERM or SIGKILL, with or without -init), and the ban file of that directory lists the address",
